@@ -231,7 +231,9 @@ def step' (s : CState) (line : String) : CState × String :=
     -- object built in memory never equals one read back (known finding eq-unserialised-encoding).
     match decList va, decList vb with
     | some a, some b =>
-      let r := if flav == "b" && sa != sb then false else a == b
+      -- "w" (built from a wider NumPy string array) is a fresh object like "f": the item size is not part of the table
+      let norm (x : String) : String := if x == "w" then "f" else x
+      let r := if flav == "b" && norm sa != norm sb then false else a == b
       (s, if r then "ok True" else "ok False")
     | _, _ => (s, "bad-op")
   | ["eqrows", flav, _level, sa, sb, va, vb, ma, mb] =>
